@@ -207,8 +207,8 @@ pub fn build_writer(world: &World, o: &Opts) -> MinidumpWriter {
                     start_address: u.start as usize,
                     size: u.size as usize,
                     system_mapping_info: minidump_writer::maps_reader::SystemMappingInfo {
-                        start_address: u.start as usize,
-                        end_address: u.start.saturating_add(u.size) as usize,
+                        start_address: if u.sysinfo_zeroed { 0 } else { u.start as usize },
+                        end_address: if u.sysinfo_zeroed { 0 } else { u.start.saturating_add(u.size) as usize },
                     },
                     offset: u.offset as usize,
                     permissions: perms_from_str(&u.perms),
